@@ -353,7 +353,45 @@ fn attribute(case: &Case, rule: &R, utils: &BTreeMap<String, R>, n: &N) -> Optio
   None
 }
 
+/// rough upper bound of atom evaluations needed to decide `r` on ONE node of a tree with `n` nodes whose
+/// widest node has `m` children (neither the implementation nor the reference memoises)
+fn est_cost(r: &R, utils: &BTreeMap<String, R>, n: f64, m: f64, depth: usize) -> f64 {
+  let rel = |x: &R, s: &Stop, span: f64| -> f64 {
+    let inner = est_cost(x, utils, n, m, depth);
+    match s {
+      Stop::Neighbor => inner,
+      Stop::End => span * inner,
+      Stop::Rule(st) => span * (inner + est_cost(st, utils, n, m, depth)),
+    }
+  };
+  match r {
+    R::Obj(v) | R::All(v) | R::Any(v) => v.iter().map(|x| est_cost(x, utils, n, m, depth)).sum::<f64>() + 1.0,
+    R::Not(x) => est_cost(x, utils, n, m, depth),
+    R::Nth { of: Some(o), .. } => m * est_cost(o, utils, n, m, depth),
+    R::Inside(x, s, _) => rel(x, s, 40.0),
+    R::Has(x, s, _) => match s {
+      Stop::Neighbor => m * est_cost(x, utils, n, m, depth),
+      _ => rel(x, s, n),
+    },
+    R::Precedes(x, s) | R::Follows(x, s) => rel(x, s, m),
+    R::Matches(u) if depth < 6 => utils.get(u).map(|b| est_cost(b, utils, n, m, depth + 1)).unwrap_or(1.0),
+    R::Matches(_) => n,
+    _ => 1.0,
+  }
+}
+
 pub fn check_rule(case: &Case, root: &N, nodes: &[N], rule: &R, utils: &BTreeMap<String, R>, rep: &mut Report) -> Option<(usize, usize)> {
+  {
+    // work limit (not a verdict): a single evaluation cannot be interrupted, so rule / tree combinations whose
+    // estimated cost is astronomically large (nested unbounded relations over wide nodes) are not started
+    let n = root.dfs().count() as f64;
+    let m = root.dfs().map(|x| x.children().len()).max().unwrap_or(1) as f64;
+    let budget: f64 = std::env::var("VMON_RULE_COST").ok().and_then(|s| s.parse().ok()).unwrap_or(1e10);
+    if est_cost(rule, utils, n, m, 0) * (nodes.len() as f64) > budget {
+      rep.count("rules_skipped_estimated_cost", 1);
+      return None;
+    }
+  }
   let yaml = core_yaml(rule, utils);
   let core = match guarded(|| build_core(&yaml, case.lang)) {
     Ok(Ok(c)) => c,
